@@ -345,6 +345,8 @@ def check(prog: Program, res: Result) -> None:
     check_shape(prog, res)
     check_range(prog, res)
     check_pair(prog, res)
+    from . import _nanred
+    _nanred.check_nan_reductions(prog, res, "C15-area", ["sleap_nn.evaluation:compute_instance_area"], floor=2)
     check_greedy(prog, res)
     res.assumptions += ["stddev > 0 and scale >= 0 (bounding-box area or a user-supplied non-negative scale)",
                         "OKS = 1 for identical poses, monotonicity and translation invariance are numerical and not decided"]
